@@ -210,7 +210,8 @@ class HeapMixin:
                 self.fact(z3.And(v.term >= 0, v.term < alloc))
             else:
                 self.fact(z3.And(v.term > 0, v.term < alloc))
-            if isinstance(v.typ, ty.TRef) and v.typ.cls in self.prog.classes and self.cls_id(v.typ.cls) is not None:
+            if self.class_facts and isinstance(v.typ, ty.TRef) and v.typ.cls in self.prog.classes \
+                    and self.cls_id(v.typ.cls) is not None:
                 self.fact(z3.Implies(v.term != 0, self.subclass_term(self.class_of(v, st), v.typ.cls)))
         elif isinstance(v, VCls):
             self.fact(v.term < 0)
